@@ -262,7 +262,8 @@ Proof.
       exists es1; eexists; split; [assumption | reflexivity]
     | rewrite iter_until_nat;
       replace (Pos.to_nat q) with (length elems) by lia;
-      destruct (coll_body_iter k elems rest es1 [] (N.of_nat (lpt_size _)) Hk Hff1) as (es2 & c2 & Hff2 & ->);
+      match goal with |- context [iter_nat _ _ (_, _, ?c0)] =>
+        destruct (coll_body_iter k elems rest es1 [] c0 Hk Hff1) as (es2 & c2 & Hff2 & ->) end;
       exists es2, c2; split; [assumption|]; now rewrite app_nil_r, rev_involutive ].
 Qed.
 
